@@ -30,7 +30,8 @@ type RestartScenario struct {
 	Observe bool      `json:"observe,omitempty"`
 	K       int       `json:"k,omitempty"` // stream carried in 188+K byte packets (explicit size 188+K, or auto for K<=4)
 	// AutoFail: 204-byte packets with auto-detection, which cannot succeed (no second sync byte in
-	// the first 193 bytes): every call fails after consuming input; Rewind must undo that too
+	// the first 193 bytes): every call fails after consuming input; Rewind must still take the
+	// reader back to 0 (the delivered sequence is not compared: outside the quantifier)
 	AutoFail bool `json:"auto_fail,omitempty"`
 }
 
@@ -49,7 +50,7 @@ func (restart) Runs(tier string) int64 {
 
 func (restart) Meta() core.EngineMeta {
 	return core.EngineMeta{
-		Rule:        "Reference streams (PAT before PMTs; multi-section PSI units so that parsed sections are buffered at some points; PES units longer than 16 packets; a crafted family in which one PID is mid-unit after exactly 16k packets while another PID returns a datum per packet, the only alignment at which a stale accumulator would continue the counter silently) are read by the real Demuxer on a seekable SimReader with a seeded chunk plan, explicit or auto-detected size, a quarter of them created with a stateless PacketSkipper and some with an observing PacketsParser (the fresh reference Demuxer gets the same options). Even run indices Rewind after EVERY number j of NextData calls (0..total; exhaustive per stream); odd indices run seeded scripts of repeated rewinds with NextPacket/NextData/mixed consumption. After the last Rewind the complete sequence must equal a fresh Demuxer's. evaluations = rewind experiments; distinct = (state class at the rewind: mid-unit PIDs, buffered sections, counter alignment; API; size mode); non-trivial = the rewind happened after at least one call.",
+		Rule:        "Reference streams (PAT before PMTs; multi-section PSI units so that parsed sections are buffered at some points; PES units longer than 16 packets; a crafted family in which one PID is mid-unit after exactly 16k packets while another PID returns a datum per packet, the only alignment at which a stale accumulator would continue the counter silently) are read by the real Demuxer on a seekable SimReader with a seeded chunk plan, explicit or auto-detected size, a quarter of them created with a stateless PacketSkipper and some with an observing PacketsParser (the fresh reference Demuxer gets the same options). Even run indices Rewind after EVERY number j of NextData calls (0..total; exhaustive per stream); odd indices run seeded scripts of repeated rewinds with NextPacket/NextData/mixed consumption. After the last Rewind the complete sequence must equal a fresh Demuxer's. evaluations = rewind experiments; distinct = (state class at the rewind: mid-unit PIDs, buffered sections, counter alignment; API; size mode); non-trivial = the rewind happened after at least one call. One scenario in twelve carries the stream in 204-byte packets with auto-detection, which fails on every call after consuming input: there only Rewind's own promise (offset 0, no error, reader back at 0) is judged.",
 		Real:        []string{"astits.Demuxer and everything below it"},
 		Stub:        []string{"refts reference multiplexer", "SimReader (seekable, short reads per plan)"},
 		FaultKinds:  []string{"rewind-mid-unit", "rewind-with-buffered-sections", "rewind-cc-aligned", "rewind-repeated", "rewind-after-nextpacket", "rewind-auto-size"},
@@ -314,7 +315,9 @@ func (restart) Execute(scAny any, keepLog bool) *core.Outcome {
 		for _, x := range res {
 			got = append(got, resKey(x.D, x.Err))
 		}
-		if ok, msg := seqEq(want, got); !ok {
+		// (where auto-detection cannot work the stream is outside the property's quantifier: only
+		// what Rewind itself promises - offset 0, no error, reader at 0 - is judged there)
+		if ok, msg := seqEq(want, got); !ok && !sc.AutoFail {
 			cls := "residue"
 			// classify for stable signatures
 			sig := "other"
